@@ -218,7 +218,7 @@ fn main() {
             }
         }
     }
-    let nrand = ctx.budget(200, 4000);
+    let nrand = ctx.cbudget(200, 4000);
     for k in 0..nrand {
         if let Some(mut rng) = ctx.random_case() {
             let len = rng.range_usize(0, 60);
